@@ -283,21 +283,24 @@ pub fn version_of(v: u8) -> Version {
 }
 
 /// Build the real `Response` by replaying the same calls.
+pub fn apply_real(r: &mut Response, c: &Call) {
+    match c {
+        Call::SetBody(b) => r.set_body(Body::new(b.clone())),
+        Call::SetContentType(t) => r.set_content_type(if *t == 0 { MediaType::PlainText } else { MediaType::ApplicationJson }),
+        Call::SetDeprecation => r.set_deprecation(),
+        Call::SetEncoding => r.set_encoding(),
+        Call::SetServer(s) => r.set_server(s),
+        Call::SetAllow(v) => r.set_allow(v.iter().map(|m| method_of(*m)).collect()),
+        Call::AllowMethod(m) => r.allow_method(method_of(*m)),
+        Call::SetContentLength(n) => r.set_content_length(*n),
+    }
+}
+
+/// Build the real `Response` by replaying the same calls.
 pub fn build_real(version: u8, code: u16, calls: &[Call]) -> Response {
     let mut r = Response::new(version_of(version), status_of(code));
     for c in calls {
-        match c {
-            Call::SetBody(b) => r.set_body(Body::new(b.clone())),
-            Call::SetContentType(t) => {
-                r.set_content_type(if *t == 0 { MediaType::PlainText } else { MediaType::ApplicationJson })
-            }
-            Call::SetDeprecation => r.set_deprecation(),
-            Call::SetEncoding => r.set_encoding(),
-            Call::SetServer(s) => r.set_server(s),
-            Call::SetAllow(v) => r.set_allow(v.iter().map(|m| method_of(*m)).collect()),
-            Call::AllowMethod(m) => r.allow_method(method_of(*m)),
-            Call::SetContentLength(n) => r.set_content_length(*n),
-        }
+        apply_real(&mut r, c);
     }
     r
 }
